@@ -12,6 +12,11 @@ LEAK_PRIMS = ("std::mem::forget", "std::boxed::Box::leak", "std::vec::Vec::leak"
               "std::sync::Arc::into_raw", "std::string::String::leak", "std::string::String::into_raw_parts")
 
 
+def _is_clarg(t, i):
+    """the i-th MIR argument of the closure the event sits in (not bound to a known value)"""
+    return t is not None and (t == ("param", i) or (t[0] == "clarg" and t[2] == i))
+
+
 def _consuming(env):
     return [(adt, r) for adt, r in env.R.impl.items() if r.get("consuming")]
 
@@ -64,7 +69,7 @@ def rule_own(env, shared):
                     if x[0] == "call" and x[1] == "ptr_add":
                         off = unref(x[2][1])
                 # the closure parameter of a map over Range{left, N}
-                if b.is_closure and off == ("param", 2):
+                if b.is_closure and _is_clarg(off, 2):
                     pb = F.bodies[b.parent]
                     pctx = env.ctx(pb, adt, w)
                     for bi, t, c in pb.calls():
@@ -679,7 +684,7 @@ def rule_pre(env, shared):
                 off = m.canon(unref(a[1]))
                 if L is not None and p.le(off, L):
                     put(Ob("PRE", key, "ok", e.loc(), "offset <= LEN entailed at this call path", True))
-                elif body.is_closure and off == ("param", 2) and exclusive_only(env, F.bodies.get(body.root, body)):
+                elif body.is_closure and _is_clarg(off, 2) and exclusive_only(env, F.bodies.get(body.root, body)):
                     put(Ob("PRE", key, "ok", e.loc(), "offset ranges over [split index, LEN) (rule OWN.a)", True))
                 else:
                     put(Ob("PRE", key, "viol" if (u is not None or e.info["chain"] or not is_unsafe_helper) else "undecided",
@@ -694,7 +699,7 @@ def rule_pre(env, shared):
                 L = storage_len(m, env, a[0])
                 if off is not None and L is not None and p.lt(off, L):
                     put(Ob("PRE", key, "ok", e.loc(), "read of an in-bounds, initialised element (index < LEN)", True))
-                elif body.is_closure and off == ("param", 2) and exclusive_only(env, F.bodies.get(body.root, body)):
+                elif body.is_closure and _is_clarg(off, 2) and exclusive_only(env, F.bodies.get(body.root, body)):
                     put(Ob("PRE", key, "ok", e.loc(), "index ranges over [split index, LEN) (rule OWN.a)", True))
                 else:
                     put(Ob("PRE", key, "viol" if (u is not None or e.info["chain"] or not is_unsafe_helper) else "undecided",
